@@ -400,6 +400,11 @@ func (b *AESGCMBarrier) ReloadKeyring(ctx context.Context) error {
 		return errors.New("keyring unexpectedly missing")
 	}
 
+	// A keyring record too short to carry a term is corrupt.
+	if len(out.Value) < 4 {
+		return errors.New("invalid keyring value")
+	}
+
 	// Verify the term is always just one
 	term := binary.BigEndian.Uint32(out.Value[:4])
 	if term != initialKeyTerm {
@@ -524,6 +529,11 @@ func (b *AESGCMBarrier) Unseal(ctx context.Context, key []byte) error {
 	}
 	if out == nil {
 		return ErrBarrierNotInit
+	}
+
+	// A keyring record too short to carry a term is corrupt.
+	if len(out.Value) < 4 {
+		return errors.New("invalid keyring value")
 	}
 
 	// Verify the term is always just one
